@@ -1,8 +1,42 @@
-/- Driver handlers for area `auth` (stub: replace `handle`). -/
+/- Driver handlers for area `auth` (C07, C08, C09). -/
 import VDriver.Util
+import VModel.Auth
+import VModel.AuthSpec
 namespace V.Driver.AuthOps
-open V V.Driver
+open V V.Json V.Driver V.Auth
 
-def handle (_op : String) (_args : Array String) : Option String := none
+/-- "<hex id>:<hex json>" -> Event -/
+def parseEvArg (ver : Bytes) (arg : String) : Option Event :=
+  match arg.splitOn ":" with
+  | [idh, jsh] =>
+    match unhex idh, unhex jsh with
+    | some id, some js =>
+      match parse js with
+      | some p => match p.toJVal with
+        | .obj kvs => some { ver := ver, eventID := id, obj := kvs }
+        | _ => none
+      | none => none
+    | _, _ => none
+  | _ => none
+
+def parseEvArgs (ver : Bytes) (args : List String) : Option (List Event) :=
+  args.mapM (parseEvArg ver)
+
+def handle (op : String) (args : Array String) : Option String :=
+  match op, args.toList with
+  | "allowed", ver :: sig :: ev :: auth =>
+    let v := strBytes ver
+    match parseEvArg v ev, parseEvArgs v auth with
+    | some e, some as =>
+      let prov := Provider.ofEvents as
+      let m := (allowedFresh e prov (sig == "1")).coarse
+      -- specification stream (C08): an escalating power-levels event must be rejected
+      if e.type == b!"m.room.power_levels" && prov.valid then
+        match AuthSpec.plMustReject e prov with
+        | some true => some (m ++ "\trej")
+        | _ => some m
+      else some m
+    | _, _ => some "bad-op"
+  | _, _ => none
 
 end V.Driver.AuthOps
